@@ -576,6 +576,12 @@ def _walks(prog, chk, R):
             # hidden signatures: a candidate whose signature was seen at a nearer level is skipped (override hides the base version)
             hid = [c for c in g.calls(lambda e: e['k'] == 'mcall' and SX.short(e.get('callee', '')) == 'count') if c.id in body and g.dominates(c, p)]
             ins = [c for c in g.calls(lambda e: e['k'] == 'mcall' and SX.short(e.get('callee', '')) == 'insert') if c.id in body]
+            # … or the single-call idiom: `if (!seen.insert(sig).second) continue;`
+            one = [c for c in g.nodes if c.kind == 'cond' and c.id in body and g.dominates(c, p) and
+                   _mentions(c.e, lambda x: x.get('k') == 'mcall' and SX.short(x.get('callee', '')) == 'insert') and
+                   _mentions(c.e, lambda x: x.get('k') == 'member' and x.get('name') == 'second')]
+            if one:
+                hid, ins = one, one
             chk.ob('R08.4', f, p.ln or f.ln, bool(hid) and bool(ins), 'a signature already seen at a nearer level hides the base version (override does not compete with the method it overrides)',
                    key='walk:hidden:' + f.short)
     chk.count('overload walks', n, 2)
